@@ -1249,7 +1249,7 @@ impl<'a, 'b> Gen<'a, 'b> {
             names.push(Binding { name, ty });
         }
         // a name declared twice in one statement: the later one wins, its kind is what is visible
-        let is_const = self.o.luau && self.t.bool(25) && values.len() >= names.len();
+        let is_const = self.o.luau && self.t.bool(25) && values.len() == names.len();
         if is_const {
             self.stat("const_local");
         }
